@@ -19,8 +19,11 @@ def svd_kernel(mat, assume_full_rank=False, matching_rank=True,
     else:
         small_sv = s < tolerance
         kernel_dims = min_kernel_dim + np.count_nonzero(small_sv, axis=-1)
+        # compare with the first *element*: for a batch with several
+        # axes, np.atleast_1d(kernel_dims)[0] is a whole row, and the
+        # comparison broadcast row against rows
         actual_ranks_match = np.all(
-            kernel_dims == np.atleast_1d(kernel_dims)[0]
+            kernel_dims == np.atleast_1d(kernel_dims).flat[0]
         )
 
         if matching_rank and not actual_ranks_match:
